@@ -174,6 +174,10 @@ class SelectResults(object):
                 if self.ops.get('end', None) is not None \
                    and self.ops['end'] < end:
                     end = self.ops['end']
+            if end is not None and start > end:
+                # starts past the end of the previous slice:
+                # an empty result
+                start = end
             return self.clone(start=start, end=end)
         else:
             if value < 0:
